@@ -344,7 +344,7 @@ def notify(chk, program, rule='NOTIFY'):
               found='assignment reachable with an unchanged state' if not ok1 else 'dominated')
     # (2) callback invocation sites
     cb = nodes_calling(g, lambda c: is_self_attr(c.func, ('status_callback',)))
-    chk.check(len(cb) == 1, rule, '_update_state::one-invocation', file=IO, line=fn.lineno, func='_update_state', expected=1, found=len(cb))
+    chk.anchor(len(cb) == 1, rule, '_update_state::one-invocation', file=IO, line=fn.lineno, func='_update_state', expected=1, found=len(cb))
     for nid, c in cb:
         inst = f"_update_state::callback"
         # after the assignment, no await between
@@ -442,7 +442,7 @@ def close_does(chk, program, rule='CLOSE-DOES'):
     for lq in (f"{BASE}._receive_loop", f"{BASE}._process_queue"):
         lg = cfg_of(program, lq)
         loops = outer_loops(lg)
-        chk.check(bool(loops), rule, f"{lq}::has-loop", file=IO, line=lg.fn.lineno, func=lq, expected='while loop', found=len(loops), nontrivial=False)
+        chk.anchor(bool(loops), rule, f"{lq}::has-loop", file=IO, line=lg.fn.lineno, func=lq, expected='while loop', found=len(loops))
         for w in loops:
             v = eval_under_closed(w.ast.test)
             chk.check(v is False, rule, f"{lq}::loop-tests-CLOSED", file=IO, line=w.line, func=lq,
@@ -615,7 +615,7 @@ def eof_rule(chk, program, rule='EOF'):
     for q, classes in sorted(impls(program, '_receive_impl').items()):
         g = cfg_of(program, q)
         reads = reader_reads(g)
-        chk.check(bool(reads), rule, f"{q}::has-read", file=IO, line=g.fn.lineno, func=q, expected='an awaited self.reader read', found=len(reads), nontrivial=False)
+        chk.anchor(bool(reads), rule, f"{q}::has-read", file=IO, line=g.fn.lineno, func=q, expected='an awaited self.reader read', found=len(reads))
         for nid, c, meth in reads:
             n += 1
             ok, why = eof_ok(g, nid, c)
@@ -630,7 +630,7 @@ def fault_path(chk, program, rule='FAULT-PATH'):
                        (f"{BASE}.send", lambda c: isinstance(c.func, ast.Attribute) and c.func.attr in ('write', 'drain') and (is_self_attr(c.func.value, ('writer',)) or (isinstance(c.func.value, ast.Name) and 'writer' in c.func.value.id)))):
         g = cfg_of(program, q)
         trig = nodes_calling(g, trigger)
-        chk.check(bool(trig), rule, f"{q}::trigger", file=IO, line=g.fn.lineno, func=q, expected='receive / write call present', found=len(trig), nontrivial=False)
+        chk.anchor(bool(trig), rule, f"{q}::trigger", file=IO, line=g.fn.lineno, func=q, expected='receive / write call present', found=len(trig))
         for nid, c in trig:
             hs = [v for v, l in g.succ[nid] if l == 'exc' and g.nodes[v].kind == 'handler']
             generic = [h for h in hs if any(x in ('Exception', 'BaseException', '<bare>') for x in handler_names(g.nodes[h].ast))]
@@ -1149,7 +1149,7 @@ def send_rules(chk, program):
                       expected='the link written to is self.writer as it is when the write happens (no suspension between reading it and using it, other than the drains of this message)',
                       found=[f"await@line{g.nodes[x].line}:{stmt_key(g.nodes[x].ast)}" for x in stale] or 'ok',
                       detail='' if not stale else 'a reconnect can replace self.writer while this send waits: its packets would go to the abandoned connection')
-    chk.check(bool(writes), 'SEND-ORDER', 'send::writes', file=IO, line=fn.lineno, func=q, expected='self.writer.write(...)', found=len(writes), nontrivial=False)
+    chk.anchor(bool(writes), 'SEND-ORDER', 'send::writes', file=IO, line=fn.lineno, func=q, expected='self.writer.write(...)', found=len(writes))
     enc = nodes_calling(g, lambda c: is_self_call(c, '_encode_impl'))
     chk.check(len(enc) == 1, 'SEND-ENCODE-FIRST', 'send::one-encode', file=IO, line=fn.lineno, func=q, expected='one call of _encode_impl', found=len(enc))
     locks = instance_locks(program)
@@ -1678,7 +1678,7 @@ def rx_rules(chk, program):
         g = cfg_of(program, q)
         fn = g.fn
         decs = nodes_calling(g, lambda c: isinstance(c.func, ast.Attribute) and c.func.attr.startswith('decode_') and is_self_attr(c.func.value, ('decoder',)))
-        chk.check(bool(decs), 'RX-CONTAIN', f"{q}::has-decode", file=IO, line=fn.lineno, func=q, expected='calls self.decoder.decode_*', found=len(decs), nontrivial=False)
+        chk.anchor(bool(decs), 'RX-CONTAIN', f"{q}::has-decode", file=IO, line=fn.lineno, func=q, expected='calls self.decoder.decode_*', found=len(decs))
         for nid, c in decs:
             inst = f"{q}::{c.func.attr}"
             hs = [v for v, l in g.succ[nid] if l == 'exc' and g.nodes[v].kind == 'handler']
@@ -1697,7 +1697,7 @@ def rx_rules(chk, program):
                       found='contained' if ok else ('exception leaves _receive_impl' if leaks or not generic else 'handler re-raises'),
                       detail=f"classes: {', '.join(classes)}")
         puts = nodes_calling(g, lambda c: call_name(c) in ('self.queue.put', 'self.queue.put_nowait'))
-        chk.check(bool(puts), 'RX-ONCE', f"{q}::has-put", file=IO, line=fn.lineno, func=q, expected='queue.put of the decoded message', found=len(puts), nontrivial=False)
+        chk.anchor(bool(puts), 'RX-ONCE', f"{q}::has-put", file=IO, line=fn.lineno, func=q, expected='queue.put of the decoded message', found=len(puts))
         for pid, pc in puts:
             nput += 1
             # at most one put per decode result: every cycle through the put passes a decode call, and no second put is reachable without a decode in between
@@ -1768,7 +1768,7 @@ def q_fifo(chk, program):
     for n in g.nodes:
         for c in calls_in_node(g, n.id, lambda c: (isinstance(c.func, ast.Name) and c.func.id in aliases) or is_self_attr(c.func, ('receive_callback',))):
             cb.append((n.id, c))
-    chk.check(len(cb) == 1, 'Q-FIFO', f"{q}::one-callback-site", file=IO, line=g.fn.lineno, func=q, expected=1, found=len(cb))
+    chk.anchor(len(cb) == 1, 'Q-FIFO', f"{q}::one-callback-site", file=IO, line=g.fn.lineno, func=q, expected=1, found=len(cb))
     for nid, c in cb:
         st = g.nodes[nid].ast
         inline = g.is_await(nid) and isinstance(c._parent, ast.Await)
